@@ -454,6 +454,12 @@ def run_check(pid, mod, tier, seed):
     assumptions += list(getattr(mod, "NOT_COVERED", []))
     level = getattr(mod, "LEVEL", "proof")
 
+    if os.environ.get("PYVC_DUMP"):
+        os.makedirs(os.environ["PYVC_DUMP"], exist_ok=True)
+        for k, (o, r) in enumerate(refuted + undecided):
+            if r.get("smt2"):
+                with open(os.path.join(os.environ["PYVC_DUMP"], f"{pid}_{k}_{r['verdict']}.smt2"), "w") as fh:
+                    fh.write(f"; {o.unit}/{o.name} path={o.path}\n" + r["smt2"])
     if os.environ.get("PYVC_DEBUG"):
         for o, r in refuted + undecided:
             print(f"  DEBUG {r['verdict']} {o.unit.split(':')[-1]}/{o.name} path={o.path} backend={r['backend']} t={r['time_s']:.1f} q={r.get('qstats')} size={r.get('size')}")
